@@ -3,42 +3,9 @@
     to the byte length of the first r runes of that document, for every corpus.
     UTF-8 facts come from Lib/Utf8.v (Go's DecodeRune model): the model's width table (Lib/RuneCount.v) is proved
     equal to [Utf8.width], and the specification is stated with [Utf8.rune_boundaries]. *)
-From ZV Require Import Lib.Base Lib.GoSearch Lib.RuneCount Model.Lines Model.Ranges Proofs.RangesOffsets.
+From ZV Require Import Lib.Base Lib.GoSearch Lib.RuneCount Model.Lines Model.Ranges Proofs.RangesOffsets Proofs.RuneWidthUtf8.
 From ZV Require Lib.Utf8.
 From Coq Require Import ZifyBool ZifyNat ZifyN.
-
-(** ---- the width table of Lib/RuneCount.v is Go's DecodeRune width (Lib/Utf8.v) *)
-Lemma rune_width_utf8 : forall b0 r, rune_width b0 r = Utf8.width (b0 :: r).
-Proof.
-  intros b0 r.
-  unfold Utf8.width, Utf8.decode_rune, Utf8.decode_step, rune_width, Utf8.lead_class,
-    is_cont, in_rng, Utf8.is_cont, Utf8.in_rng.
-  destruct (b0 =? 224)%N eqn:E224, (b0 =? 237)%N eqn:E237, (b0 =? 240)%N eqn:E240, (b0 =? 244)%N eqn:E244;
-    try (exfalso; lia); cbv iota;
-    destruct r as [|b1 [|b2 [|b3 r']]];
-    repeat match goal with
-    | |- context [if ?c then _ else _] => destruct c eqn:?; cbv iota
-    end; try reflexivity; exfalso; lia.
-Qed.
-
-Lemma width_nil : Utf8.width [] = 0.
-Proof. reflexivity. Qed.
-
-Lemma width_le4 : forall l, Utf8.width l <= 4.
-Proof.
-  intros l. destruct l as [|b t]; [cbn; lia|].
-  destruct (Utf8.width_cases (b :: t)) as [[r H]|[_ H]]; [discriminate| |lia].
-  apply Utf8.decode_step_shape in H. lia.
-Qed.
-
-(** the width depends on the first four bytes only *)
-Lemma width_firstn : forall l W, 4 <= W -> Utf8.width (firstn W l) = Utf8.width l.
-Proof.
-  intros l W HW. destruct l as [|b0 r]; [now rewrite firstn_nil|].
-  destruct W as [|[|[|[|W']]]]; try lia.
-  rewrite firstn_cons, <- !rune_width_utf8.
-  destruct r as [|b1 [|b2 [|b3 r']]]; reflexivity.
-Qed.
 
 (** ---- skip-counter recursions of the model = "decode one rune, advance by its width" *)
 Lemma runes_bytes_skip_spec : forall l skip n, skip <= length l ->
